@@ -16,7 +16,7 @@ LEVEL = {"C07": "exploration", "C08": "fault_enumeration", "C15": "exploration",
 # scenarios per tier (fixed counts: the every-change check is the same execution set every time)
 BUDGET = {
     "C20": {"quick": 320_000, "thorough": 6_000_000},
-    "C15": {"quick": 160_000, "thorough": 3_000_000},
+    "C15": {"quick": 128_000, "thorough": 3_000_000},
     "C07": {"quick": 1_200_000, "thorough": 24_000_000},
     "C08": {"quick": 1_600_000, "thorough": 32_000_000},
     "C17": {"quick": 800_000, "thorough": 16_000_000},
@@ -465,6 +465,12 @@ def run_check(verif, prop, tier):
         return 2
     shutil.rmtree(ctx.out, ignore_errors=True)
     os.makedirs(ctx.out, exist_ok=True)
+    # replay files of earlier runs of this property are superseded by this run
+    for old in glob.glob(os.path.join(ctx.replays, f"{prop}-*")):
+        try:
+            os.remove(old)
+        except OSError:
+            pass
     from plans import PLANS
     if prop not in PLANS:
         print(f"unknown property {prop}")
